@@ -45,10 +45,13 @@ def tag(i):
 
 
 def clip(i):
+    """clip `i` covers [10 i, 10 i + 10) of the recording; ids from 100 on are *twins*: clip 100 + i is another
+    clip (its own uuid) over the same recording and the same time window as clip i"""
     from soundevent import data
     b = _base()
     if i not in b["clips"]:
-        b["clips"][i] = data.Clip(recording=b["rec"], start_time=10.0 * i, end_time=10.0 * i + 10.0)
+        w = i - 100 if i >= 100 else i
+        b["clips"][i] = data.Clip(recording=b["rec"], start_time=10.0 * w, end_time=10.0 * w + 10.0)
     return b["clips"][i]
 
 
@@ -88,10 +91,21 @@ def geom_json(g):
 
 
 def build(inp):
-    """abstract input -> (clip_predictions, clip_annotations, vocabulary tags)"""
+    """abstract input -> (clip_predictions, clip_annotations, vocabulary tags)
+
+    With `inp["tagpool"]` (a list of tag descriptors, see `harness/tagpool.py`) a tag id is a position in
+    that pool and every use builds a new Tag object; without it the eight tags above are used."""
     from soundevent import data
     rec = _base()["rec"]
     ses = {}
+    if inp.get("tagpool") is not None:
+        from . import tagpool
+        descs = inp["tagpool"]
+
+        def tag(t):
+            return tagpool.fresh(descs[t])
+    else:
+        tag = globals()["tag"]
 
     def sound_event(ev):
         key = (ev["id"], gkey(ev["geom"]))
@@ -106,7 +120,8 @@ def build(inp):
     for c in inp["predictions"]:
         preds.append(data.ClipPrediction(
             clip=clip(c["clip"]), tags=ptags(c.get("tags", [])),
-            sound_events=[data.SoundEventPrediction(sound_event=sound_event(e), score=1.0, tags=ptags(e["tags"]))
+            sound_events=[data.SoundEventPrediction(sound_event=sound_event(e), tags=ptags(e["tags"]),
+                                                    score=float(frac(e["conf"])) if "conf" in e else 1.0)
                           for e in c.get("events", [])]))
     for c in inp["annotations"]:
         anns.append(data.ClipAnnotation(
